@@ -119,7 +119,8 @@ def values_in_range(self, where=(-inf, inf), closed=None):
     lower_how, upper_how = _get_lims(self, closed)
     left_index, right_index = _get_slice_index(self, lower, upper, lower_how, upper_how)
     if right_index == -1:
-        return np.array([self.initial_value])
+        initial = np.array([self.initial_value], dtype=float)
+        return initial[~np.isnan(initial)]
     values = self._get_values().iloc[max(0, left_index) : right_index]
     if left_index < 0 and not np.isnan(self.initial_value):
         values = np.append([self.initial_value], values)
@@ -135,7 +136,8 @@ def _min(
     where = _replace_none_with_infs(where)
     if closed is None:
         closed = self._closed
-    return min(self.values_in_range(where, closed))
+    values = self.values_in_range(where, closed)
+    return min(values) if len(values) else np.nan
 
 
 def _max(
@@ -146,7 +148,8 @@ def _max(
     where = _replace_none_with_infs(where)
     if closed is None:
         closed = self._closed
-    return max(self.values_in_range(where, closed))
+    values = self.values_in_range(where, closed)
+    return max(values) if len(values) else np.nan
 
 
 @Appender(docstrings.agg_docstring, join="\n", indents=1)
